@@ -75,7 +75,7 @@ def mvalue(world, v, T=None):
 
 def apply_prep(how, v):
     """Model of the named preparer kinds on abstract values."""
-    if how is None:
+    if how is None or how == "noop":
         return v
     if how == "cast_list":
         return ["L", v[1]] if isinstance(v, list) and v and v[0] == "T" else v
